@@ -301,10 +301,11 @@ fn slots_requests(ctx: &mut Ctx, rng: &mut Rng) {
     }
     for s in seqs {
         let s2 = s.clone();
-        let r = catch_unwind(AssertUnwindSafe(move || utils::storage_slots_used(s2)));
-        let imp = r.map(|v| v.to_string()).unwrap_or_else(|_| "PANIC".into());
+        let r = catch_unwind(AssertUnwindSafe(move || real::call_slots(utils::storage_slots_used, s2)));
+        let imp = r.unwrap_or_else(|_| "PANIC".into());
         ctx.line(&["SLOTS", &s.iter().map(|x| x.to_string()).collect::<Vec<_>>().join(","), &imp]);
     }
+    files::pack_requests(ctx);
     // every elementary type and some non-types
     let mut tys: Vec<String> = vec!["bool".into(), "address".into(), "address payable".into(), "payable".into(), "string".into(), "bytes".into(), "uint".into(), "int".into(), "byte".into(), "mapping(uint => bool)".into(), "function() external".into(), "IERC20".into(), "uint[]".into(), "Lib.T".into(), "fixed".into()];
     for n in 1..=32 {
